@@ -1,5 +1,6 @@
 import Lean.Data.Json
 import DL.Model.ImportFix
+import DL.Lemmas.ImpWheres
 
 /-! JSON front end of M-IMP for `dlmodel` (not part of any theorem). -/
 open Lean (Json)
@@ -33,7 +34,9 @@ def runImp (j : Json) : Except String Json := do
   let k := kept f
   let after := (r.zip ws).map fun (d, w) =>
     if k.contains d then pairsJson (kept (applyFix f d.2 w)) else Json.null
-  pure (Json.mkObj [("raw", pairsJson r), ("kept", pairsJson k), ("wheres", Json.arr (ws.map whereJson).toArray),
+  -- `wf`: the hypothesis `WF` of `wheres_safe` / `real_fix_strictly_fewer`, decided on this abstraction of a real file
+  -- (`WF_of_wfB`): the implementation side always answers `true`, so a real file outside the theorems' domain is a mismatch
+  pure (Json.mkObj [("wf", Json.bool (wfB f first)), ("raw", pairsJson r), ("kept", pairsJson k), ("wheres", Json.arr (ws.map whereJson).toArray),
     ("after", Json.arr after.toArray)])
 
 end DL.Imp
